@@ -34,7 +34,7 @@ func (s *ModelServer) GetFanSpeed(_ context.Context, request *traits.GetFanSpeed
 }
 
 func (s *ModelServer) UpdateFanSpeed(_ context.Context, request *traits.UpdateFanSpeedRequest) (*traits.FanSpeed, error) {
-	return s.model.UpdateFanSpeed(request.FanSpeed, resource.InterceptBefore(func(old, new proto.Message) {
+	return s.model.UpdateFanSpeed(request.FanSpeed, resource.WithUpdateMask(request.UpdateMask), resource.InterceptBefore(func(old, new proto.Message) {
 		if request.Relative {
 			oldVal := old.(*traits.FanSpeed)
 			newVal := new.(*traits.FanSpeed)
